@@ -18,6 +18,7 @@
 import XotModel.Lemmas.FatomAll
 import XotModel.Lemmas.Fcreation
 import XotModel.Lemmas.FpxDedup
+import XotModel.Lemmas.FhistAtomic
 import XotModel.Lemmas.ArenaExamples
 
 namespace XotModel.Props
@@ -700,5 +701,139 @@ example : (c06PfxForest.createMissingPrefixes c06PfxEnv 0).2.2 = .ok ∧
     (c06PfxForest.createMissingPrefixes c06PfxEnv 4).1.allHandles = c06PfxForest.allHandles ∧
     (c06PfxForest.dedupCalls c06PfxEnv 0).length = 1 ∧
     (c06PfxForest.deduplicateNamespaces c06PfxEnv 0).2 = .ok := by decide +kernel
+
+end XotModel.Props
+
+/-! # ================================================================================================
+    # EXTENDED HISTORIES (branch wt-hist): C06 for the composite calls as steps of the histories
+    # ================================================================================================
+
+  `Forest.XCall` (Model/FhistSpec.lean): a call of `Forest.Call`, node creation, set_text_consolidation,
+  remove_insignificant_whitespace, `create_missing_prefixes`, `deduplicate_namespaces`,
+  `clone_with_prefixes` (for ANY iteration order of the inherited prefixes); `XCall.run` on a `Store`
+  (forest + interning tables) gives the state reached and the outcome.  `XCall.liveArgs`: every node
+  argument is live.  `XCall.documentedPanic`: the documented panics of `Forest.Call` (`attributes_mut` /
+  `namespaces_mut` / `set_element_name` on a non-element) — the other steps and the composites have none.
+
+  What the composites do, exactly (`C06_outcomes_ext`): `create_missing_prefixes` refuses `NotElement`
+  (node neither element nor document) / `NoElementAtTopLevel` (document without an element child)
+  BEFORE touching anything — forest and interning tables are returned as they were — and answers `Ok`
+  otherwise; `deduplicate_namespaces` never fails; `clone_with_prefixes` of a live node returns a node;
+  node creation, set_text_consolidation, remove_insignificant_whitespace return nothing that can fail. -/
+
+namespace XotModel.Props
+open XotModel
+
+/-- ⟦C06_atomic_ext⟧ **An extended call on live arguments that answers an error has changed nothing**:
+    neither the forest nor the interning tables. -/
+theorem C06_atomic_ext (s : Store) (c : Forest.XCall) (e : XotError) (hi : s.forest.Inv)
+    (hl : c.liveArgs s.forest) (h : (c.run s).2 = .err e) : (c.run s).1 = s := by
+  rcases Forest.xcall_clauses hi c hl with ⟨_, h'⟩ | ⟨_, h'⟩
+  · exact h'.atomic e h
+  · rw [h']
+
+/-- ⟦C06_nopanic_ext⟧ **The only panics of extended calls on live arguments are the documented ones**
+    (of the element-only accessors on a non-element), and they change nothing.  In particular the
+    composites never panic: `pushed.pop().unwrap()` in the walk of `create_missing_prefixes` is
+    unreachable and its prefix loop ends, every `namespaces_mut(h)` of both composites meets an
+    element, the `unwrap`s inside `clone_node` cannot fail and the insertions of `clone_with_prefixes`
+    are made on the clone only if it is an element. -/
+theorem C06_nopanic_ext (s : Store) (c : Forest.XCall) (hi : s.forest.Inv) (hl : c.liveArgs s.forest)
+    (h : (c.run s).2 = .panic) : c.documentedPanic s.forest = true ∧ (c.run s).1 = s := by
+  rcases Forest.xcall_clauses hi c hl with ⟨_, h'⟩ | ⟨h1, h'⟩
+  · exact absurd h h'.noPanic
+  · exact ⟨h1, by rw [h']⟩
+
+/-- The documented panic does happen (so `C06_nopanic_ext` is an equivalence). -/
+theorem C06_documentedPanic_ext (s : Store) (c : Forest.XCall) (hi : s.forest.Inv)
+    (hl : c.liveArgs s.forest) (h : c.documentedPanic s.forest = true) : (c.run s).2 = .panic := by
+  rcases Forest.xcall_clauses hi c hl with ⟨h1, _⟩ | ⟨_, h'⟩
+  · rw [h1] at h; cases h
+  · rw [h']
+
+/-- No extended call with live arguments uses an indextree primitive outside its list semantics. -/
+theorem C06_corrupt_unreachable_ext (s : Store) (c : Forest.XCall) (hi : s.forest.Inv)
+    (hl : c.liveArgs s.forest) : (c.run s).1.forest.corrupt = false := by
+  rcases Forest.xcall_clauses hi c hl with ⟨_, h'⟩ | ⟨_, h'⟩
+  · exact h'.notCorrupt
+  · rw [h']; exact hi.notCorrupt
+
+/-- ⟦C06_outcomes_ext⟧ What the steps that are not calls of `Forest.Call` answer, exactly.  Node
+    creation, `set_text_consolidation`, `remove_insignificant_whitespace`, `deduplicate_namespaces`:
+    `Ok` for EVERY argument, live or not (and the interning tables are the same).
+    `clone_with_prefixes`: `Ok` on a live node, for every iteration order.
+    `create_missing_prefixes`, for EVERY argument: `Ok`, or `NotElement` exactly when the node is
+    neither an element nor a document, or `NoElementAtTopLevel` exactly when it is a document none of
+    whose children is an element — and in both refusals the store (forest AND tables) is returned as
+    it was: the refusals precede the first `namespaces_mut` call and the first `add_prefix`. -/
+theorem C06_outcomes_ext (s : Store) (hi : s.forest.Inv) :
+    (∀ v, ((Forest.XCall.newNode v).run s).2 = .ok) ∧
+    (∀ b, ((Forest.XCall.setConsolidation b).run s).2 = .ok) ∧
+    (∀ n, ((Forest.XCall.removeInsignificantWhitespace n).run s).2 = .ok) ∧
+    (∀ n, ((Forest.XCall.deduplicateNamespaces n).run s).2 = .ok ∧
+      ((Forest.XCall.deduplicateNamespaces n).run s).1.env = s.env) ∧
+    (∀ n order, s.forest.isLive n = true → ((Forest.XCall.cloneWithPrefixes n order).run s).2 = .ok ∧
+      ((Forest.XCall.cloneWithPrefixes n order).run s).1.env = s.env) ∧
+    (∀ n, ((Forest.XCall.createMissingPrefixes n).run s).2 = .ok ∨
+      (s.forest.isDocument n = false ∧ s.forest.isElement n = false ∧
+        (Forest.XCall.createMissingPrefixes n).run s = (s, .err .notElement)) ∨
+      (s.forest.isDocument n = true ∧
+        (∀ t, s.forest.get? n = some t → ∀ k ∈ t.kids, k.value.isElement = false) ∧
+        (Forest.XCall.createMissingPrefixes n).run s = (s, .err .noElementAtTopLevel))) :=
+  Forest.xcall_outcomes hi
+
+/-- `clone_with_prefixes` of a live node cannot panic, whatever the iteration order (proved here from
+    the C06 lemmas: `clone_node` returns a node, every insertion meets an element). -/
+theorem C06_no_panic_cloneWithPrefixes (f : Forest) (hi : f.Inv) (n : Nat) (hn : f.isLive n = true)
+    (order : List (Nat × Nat)) : (f.cloneWithPrefixes n order).2 ≠ none := by
+  have := Forest.cloneWithPrefixes_isSome hi hn order
+  intro h; rw [h] at this; cases this
+
+/-- Along histories: after ANY well-kinded extended history from the empty store (any vocabulary),
+    the next extended call with live arguments is atomic and panics only as documented — the
+    invariant the step theorems need holds at every point of time (`C04_reach_ext`). -/
+theorem C06_atomic_nopanic_reach_ext (env : Env) (pre : List Forest.XCall) (hw : ∀ c ∈ pre, c.wellKinded)
+    (c : Forest.XCall) (hl : c.liveArgs ((⟨Forest.init, env⟩ : Store).xrun pre).forest) :
+    (∀ e, (c.run ((⟨Forest.init, env⟩ : Store).xrun pre)).2 = .err e →
+      (c.run ((⟨Forest.init, env⟩ : Store).xrun pre)).1 = (⟨Forest.init, env⟩ : Store).xrun pre) ∧
+    ((c.run ((⟨Forest.init, env⟩ : Store).xrun pre)).2 = .panic →
+      c.documentedPanic ((⟨Forest.init, env⟩ : Store).xrun pre).forest = true ∧
+      (c.run ((⟨Forest.init, env⟩ : Store).xrun pre)).1 = (⟨Forest.init, env⟩ : Store).xrun pre) := by
+  have hi : ((⟨Forest.init, env⟩ : Store).xrun pre).forest.Inv :=
+    Store.xrun_inv pre ((Forest.inv_iff _).mp (show Forest.init.inv = true by decide)) hw
+  exact ⟨fun e h => C06_atomic_ext _ c e hi hl h, fun h => C06_nopanic_ext _ c hi hl h⟩
+
+/-- Non-vacuity on `c06PfxForest` (`<a:e xmlns:p="urn:u"><a:e xmlns:p="urn:u"/></a:e>` and a document
+    holding only a comment): live arguments; an accepted repair, the two refusals of
+    `create_missing_prefixes` with forest and tables as they were, a dedup, a clone with prefixes, the
+    documented panic; and a mixed history with its outcomes. -/
+def c06XStore : Store := ⟨c06PfxForest, c06PfxEnv⟩
+def c06XCalls : List Forest.XCall :=
+  [.call (.append 4 2), .createMissingPrefixes 4, .deduplicateNamespaces 4, .cloneWithPrefixes 2 [(2, 2)],
+   .createMissingPrefixes 5, .call (.detach 2), .createMissingPrefixes 4, .call (.mapClear .namespaces 5),
+   .removeInsignificantWhitespace 0, .deduplicateNamespaces 0]
+example : c06XStore.forest.Inv := (Forest.inv_iff _).1 (by decide)
+example : (Forest.XCall.createMissingPrefixes 0).liveArgs c06XStore.forest ∧
+    (Forest.XCall.createMissingPrefixes 1).liveArgs c06XStore.forest ∧
+    (Forest.XCall.createMissingPrefixes 4).liveArgs c06XStore.forest ∧
+    (Forest.XCall.cloneWithPrefixes 2 [(2, 2)]).liveArgs c06XStore.forest := by
+  refine ⟨?_, ?_, ?_, ?_⟩ <;> intro x hx <;>
+    simp only [Forest.XCall.args, List.mem_singleton] at hx <;> subst hx <;> decide
+example : ((Forest.XCall.createMissingPrefixes 0).run c06XStore).2 = .ok ∧
+    ((Forest.XCall.createMissingPrefixes 0).run c06XStore).1.env.prefixes = [[], ['x','m','l'], ['p'], ['n', '0']] ∧
+    ((Forest.XCall.createMissingPrefixes 1).run c06XStore).2 = .err .notElement ∧
+    ((Forest.XCall.createMissingPrefixes 1).run c06XStore).1.forest.allHandles = c06XStore.forest.allHandles ∧
+    ((Forest.XCall.createMissingPrefixes 1).run c06XStore).1.env.prefixes = c06XStore.env.prefixes ∧
+    ((Forest.XCall.createMissingPrefixes 4).run c06XStore).2 = .err .noElementAtTopLevel ∧
+    ((Forest.XCall.deduplicateNamespaces 0).run c06XStore).2 = .ok ∧
+    ((Forest.XCall.deduplicateNamespaces 0).run c06XStore).1.forest.allHandles = [0, 1, 2, 4, 5] ∧
+    ((Forest.XCall.cloneWithPrefixes 2 [(2, 2)]).run c06XStore).2 = .ok ∧
+    ((Forest.XCall.call (.mapClear .namespaces 5)).run c06XStore).2 = .panic ∧
+    (Forest.XCall.call (.mapClear .namespaces 5)).documentedPanic c06XStore.forest = true := by
+  decide +kernel
+example : (∀ c ∈ c06XCalls, c.wellKinded) ∧
+    c06XStore.xouts c06XCalls = [.ok, .ok, .ok, .ok, .err .notElement, .ok, .err .noElementAtTopLevel, .panic,
+      .ok, .ok] ∧
+    (c06XStore.xrun c06XCalls).forest.inv = true := by decide +kernel
 
 end XotModel.Props
